@@ -86,7 +86,14 @@ def gen(rng: Rng, tier: str, index: int) -> dict:
             shared = [c.pick([nm, nm, nm.upper(), nm.swapcase()])]     # the same file, possibly spelled in another letter case
         members.append({'names': _gen_names(c, c.randrange(1, 5)) + shared,
                         'prefix': c.pick(['', '', 'materials', 'models/props']), 'priority': c.chance(0.3), 'tag': f'm{i}'})
-    return {'names': names, 'queries': queries, 'folders': folders, 'chain': members, 'steps': []}
+    # the chain's construction history: every member is added once, some are added again later (a search path that
+    # mentions one location twice, e.g. to move it to the front)
+    adds = [[i, m['prefix'], m['priority']] for i, m in enumerate(members)]
+    for _ in range(c.pick([0, 0, 1, 2])):
+        i = c.randrange(len(members))
+        adds.append([i, c.pick([members[i]['prefix'], members[i]['prefix'], '', 'materials']), c.chance(0.6)])
+    return {'names': names, 'queries': queries, 'folders': folders, 'chain': members, 'adds': adds, 'steps': [],
+            'zip_dirs': rng.child('zip').chance(0.4), 'zip_label': c.chance(0.35)}
 
 
 def _fold(name: str) -> str:
@@ -120,15 +127,28 @@ def _folder_class(folder: str, names) -> str:
     return '+'.join(cls) or 'plain'
 
 
-def _build_backends(fs: SimFS, names, tag='f', base=P):
+def _build_backends(fs: SimFS, names, tag='f', base=P, zip_dirs=False, zip_label=None):
     files = {n: _content(tag, n) for n in names}
     virt = VirtualFileSystem(dict(files))
     zbuf = io.BytesIO()
     with zipfile.ZipFile(zbuf, 'w') as z:
+        made = set()
         for n, data in files.items():
+            if zip_dirs:
+                # archives written by most tools hold an explicit entry per directory; those are not files
+                parts = n.split('/')[:-1]
+                for k in range(1, len(parts) + 1):
+                    d = '/'.join(parts[:k]) + '/'
+                    if d not in made:
+                        made.add(d)
+                        z.writestr(d, b'')
             z.writestr(n, data)
     fs.put(base + '/pack.zip', zbuf.getvalue())
-    zfs = ZipFileSystem(base + '/pack.zip')
+    if zip_label:
+        # an archive that is already open, given a display label rather than a path on disk
+        zfs = ZipFileSystem(zip_label, zipfile.ZipFile(io.BytesIO(zbuf.getvalue())))
+    else:
+        zfs = ZipFileSystem(base + '/pack.zip')
     vp = VPK(base + '/pak01_dir.vpk', mode='w')
     for n, data in files.items():
         vp.add_file(n, data)
@@ -151,7 +171,7 @@ def run(case: dict) -> Outcome:
         out.nontrivial = True
     with fs:
         try:
-            files, backends = _build_backends(fs, names)
+            files, backends = _build_backends(fs, names, zip_dirs=case.get('zip_dirs', False))
         except Exception as exc:
             out.violate('build-raised', type(exc).__name__, f'building the four backends raised {exc!r} for {names}')
             return out
@@ -266,6 +286,7 @@ def _check_chain(out: Outcome, fs: SimFS, case: dict):
     chain = FileSystemChain()
     order = []      # reference: list of (member index, prefix)
     members = []
+    objs = []
     kinds = ['virtual', 'zip', 'vpk', 'virtual']
     for i, m in enumerate(case['chain']):
         uniq = []
@@ -273,17 +294,29 @@ def _check_chain(out: Outcome, fs: SimFS, case: dict):
             if _fold(n) not in {_fold(x) for x in uniq}:
                 uniq.append(n)
         try:
-            files, backends = _build_backends(fs, uniq, tag=m['tag'], base=f'{P}/c{i}')
+            files, backends = _build_backends(fs, uniq, tag=m['tag'], base=f'{P}/c{i}', zip_dirs=case.get('zip_dirs', False),
+                                              zip_label='embedded.zip' if case.get('zip_label') else None)
         except Exception as exc:
             out.violate('build-raised', 'chain|' + type(exc).__name__, repr(exc))
             return
-        sysobj = backends[kinds[i % len(kinds)]]
+        kind = 'zip' if case.get('zip_label') and i < 3 else kinds[i % len(kinds)]
+        objs.append(backends[kind])
         members.append({_fold(n): d for n, d in files.items()})
-        chain.add_sys(sysobj, m['prefix'], priority=m['priority'])
-        if m['priority']:
-            order.insert(0, (i, m['prefix']))
+    adds = case.get('adds')
+    if adds is None:
+        adds = [[i, m['prefix'], m['priority']] for i, m in enumerate(case['chain'])]
+    seen_members = set()
+    for i, prefix, priority in adds:
+        if i >= len(objs):
+            continue
+        if i in seen_members:
+            out.stats['chain_readd'] += 1
+        seen_members.add(i)
+        chain.add_sys(objs[i], prefix, priority=priority)
+        if priority:
+            order.insert(0, (i, prefix))
         else:
-            order.append((i, m['prefix']))
+            order.append((i, prefix))
     if len(order) >= 2:
         allnames = [set(x) for x in members]
         if any(allnames[a] & allnames[b] for a in range(len(allnames)) for b in range(a + 1, len(allnames))):
@@ -346,10 +379,14 @@ def _check_chain(out: Outcome, fs: SimFS, case: dict):
     out.states.add(f'chain|{len(order)}|{"prefix" if any(p for _, p in order) else "noprefix"}')
 
 
-SHRINK_LISTS = ('queries', 'folders', 'chain', 'names')
+SHRINK_LISTS = ('queries', 'folders', 'adds', 'names')
 
 
 def simplify(case: dict):
+    if case.get('zip_dirs'):
+        yield dict(case, zip_dirs=False)
+    if case.get('zip_label'):
+        yield dict(case, zip_label=False)
     for i, m in enumerate(case['chain']):
         if m['prefix']:
             yield dict(case, chain=case['chain'][:i] + [dict(m, prefix='')] + case['chain'][i + 1:])
